@@ -193,10 +193,23 @@ class SymCtx(object):
             v = v.as_float()
         obj.fields[name] = v
 
+    @staticmethod
+    def _lift(v):
+        """plain python floats written in a harness become R-mode numbers"""
+        if isinstance(v, float):
+            return Num.of(v)
+        if isinstance(v, list):
+            return [SymCtx._lift(x) for x in v]
+        if isinstance(v, tuple):
+            return tuple(SymCtx._lift(x) for x in v)
+        return v
+
     def call(self, ref, *args, **kwargs):
         m, qn, node = self.it.repo.function(ref)
         from .interp import FuncRef
         f = FuncRef(m, qn, node, static=True)
+        args = [self._lift(a) for a in args]
+        kwargs = {k: self._lift(v) for k, v in kwargs.items()}
         r = self.it.call(f, list(args), kwargs)
         self.calls.append(r)
         return r
@@ -205,11 +218,15 @@ class SymCtx(object):
         """instantiate a repo class: ref = 'pymeeus.Epoch:Epoch'"""
         from .interp import ClassRef
         modname, cn = ref.split(":")
+        args = [self._lift(a) for a in args]
+        kwargs = {k: self._lift(v) for k, v in kwargs.items()}
         r = self.it.call(ClassRef(self.it.repo.module(modname), cn), list(args), kwargs)
         self.calls.append(r)
         return r
 
     def method(self, obj, name, *args, **kwargs):
+        args = [self._lift(a) for a in args]
+        kwargs = {k: self._lift(v) for k, v in kwargs.items()}
         r = self.it.call_method(obj, name, list(args), kwargs)
         self.calls.append(r)
         return r
